@@ -13,6 +13,8 @@
    requester or by a capacity eviction of its target, the snoop closures have their commands) and frame
    reasoning on main memory; c06full70_b holds in every state of every run tried (Props/C06_mvp70.v), no
    counterexample to any clause was found on flush-free runs.
+   [LATER: the gap is closed by Msi/M70Proofs3.v .. M70Proofs6.v - clauses 2 and 3 and the whole C06Inv70 are proved
+    on reach7nf (mvp70_inv_reachable), with an invariant stated over the semaphores instead of just_b.]
 
    Method: the part of a controller that matters for clause 1 is abstracted to a SUMMARY (cur_post, cur_pend):
    the `post` closure it will run and, while it waits for its pending commands, their identities.  K1' is an
